@@ -26,8 +26,11 @@ let do_urlenc f =
       let cfg = ue_cfg_of_spec spec in
       let sepv = if sep = "d" then c_ue_default_separator else n_of_int (int_of_string sep land 255) in
       let decv = if dec = "d" then c_ue_default_decode else int_of_string dec <> 0 in
+      let has_fin = chunks <> "." && List.mem "F" (String.split_on_char ',' chunks) in
       let ((ps, fl), st) =
-        if sep = "d" && dec = "d" then ue_run_full cfg (ue_chunks chunks)
+        if has_fin then
+          ue_run_ops cfg sepv decv (List.map (fun h -> if h = "F" then None else Some (bytes_of_hex h)) (String.split_on_char ',' chunks))
+        else if sep = "d" && dec = "d" then ue_run_full cfg (ue_chunks chunks)
         else ue_run_with cfg sepv decv (ue_chunks chunks) in
       (if ps = [] then "none"
        else String.concat " " (List.map (fun (k, v) -> hex_of_bytes k ^ "=" ^ hex_of_bytes v) ps))
